@@ -172,6 +172,22 @@ def _get_used_variables(stmt: Statement) -> frozenset[str]:
     return stmt.used_variables()
 
 
+def _assertion_reads(assertion: ass.Assertion, var_name: str) -> bool:
+    """Whether the given assertion reads the given variable or one of its fields.
+
+    Args:
+        assertion: The assertion to inspect
+        var_name: The name of the variable
+
+    Returns:
+        True, if the assertion is on the variable itself or on a field of it
+    """
+    source = getattr(assertion, "source", None)
+    return isinstance(source, str) and (
+        source == var_name or source.startswith((f"{var_name}.", f"{var_name}["))
+    )
+
+
 def _uses_variable(stmt: Statement, var_name: str) -> bool:
     """Return True if *var_name* is used (read) anywhere in *stmt*'s CST.
 
@@ -602,7 +618,7 @@ class TestCase:  # noqa: PLR0904
                     # Variable is used later. It is NOT alive before this assignment.
                     alive_vars.remove(bv)
                     alive_vars.update(_get_used_variables(stmt))
-                elif any(getattr(assertion, "source", None) == bv for assertion in stmt.assertions):
+                elif any(_assertion_reads(assertion, bv) for assertion in stmt.assertions):
                     # Variable is read by the assertions of its own statement: keep it.
                     alive_vars.update(_get_used_variables(stmt))
                 else:
